@@ -21,7 +21,11 @@ def power_events(env):
     for a in operands:
         prod = None
         for n in range(1, 10):
-            prod = a if prod is None else prod * a
+            po = P.outcome(lambda: a if prod is None else prod * a)
+            if po[0] != "ok":
+                ev.append({"op": "Agrees", "call": "the %d-fold product of (%r) raised %s" % (n, a, po[2]), "ok": False, "same_quantity": False, "ppt": 2 ** 31 - 1, "want": ""})
+                break
+            prod = po[1]
             o = P.outcome(lambda: a ** n)
             e = {"op": "Agrees", "call": "(%r) ** %d against the %d-fold product" % (a, n, n), "ok": o[0] == "ok", "same_quantity": False, "ppt": 2 ** 31 - 1,
                  "want": repr(prod)}
